@@ -251,6 +251,32 @@ impl Shell {
         }
     }
 
+    /// Spawn the real reader task of every link on the shell's (current-thread) runtime, as the loop's
+    /// `sync_readers` does. The tasks only run while the shell blocks on its runtime (`pump`).
+    pub fn sync_readers(&mut self) {
+        let Shell { rt, st } = self;
+        let _g = rt.enter();
+        vh::sync_readers(&st.conns, &st.conn_io, &mut st.readers, &st.packet_tx);
+    }
+
+    /// A datagram from the receiver socket to the current socket of link `idx` (through the kernel).
+    pub fn rx_send_link(&self, idx: usize, bytes: &[u8]) -> bool {
+        let port = self.local_port(idx);
+        let Some(c) = self.st.conns.get(idx) else { return false };
+        port != 0 && self.st.rx.send_to(bytes, (c.local_ip, port)).is_ok()
+    }
+
+    /// A datagram from the receiver socket to an arbitrary port of link `idx`'s address.
+    pub fn rx_send_port(&self, idx: usize, port: u16, bytes: &[u8]) -> bool {
+        let Some(c) = self.st.conns.get(idx) else { return false };
+        self.st.rx.send_to(bytes, (c.local_ip, port)).is_ok()
+    }
+
+    /// Let the spawned tasks (reader tasks) run: block on the runtime for `ms` of real time.
+    pub fn pump(&mut self, ms: u64) {
+        self.rt.block_on(async move { tokio::time::sleep(std::time::Duration::from_millis(ms)).await });
+    }
+
     /// One bounded drain pass of the uplink channel (what every event-loop arm ends with).
     pub fn drain_queue(&mut self) {
         self.sync_clock();
